@@ -39,6 +39,25 @@ claim("C11", "M+K", "SMT bounded model checking of MIR (z3); Kani/CBMC harnesses
 claim("C17", "M", "SMT bounded model checking of MIR (z3)",
       "Kernel level (narrow): the channel_update acceptance closures of NetworkGraph::update_channel_internal - strictly newer timestamp per direction, htlc_maximum <= known capacity - for all timestamps/flags/amounts; counterexamples are replayed through the public NetworkGraph API. Signatures, announcements, pruning and order-independence over message sets are outside the claim.",
       "trusted: rustc MIR dump, engine_m, z3")
+K = "Kani 0.68 / CBMC bounded model checking of the compiled code"
+claim("C04", "M", "SMT bounded model checking of MIR (z3)",
+      "Kernel level: payment-secret metadata packing/unpacking (construct_info_bytes <-> verify) and the amount / expiry / min-final-CLTV acceptance thresholds for all u64/u32/u16 inputs and all five methods, with the cryptography abstracted (decrypt = packed bytes, HMAC/preimage checks = arbitrary booleans); user-hash boundary cases replay through the real create_from_hash + verify. Unforgeability, MPP accumulation and claiming are outside the claim.",
+      "trusted: rustc MIR dump, engine_m, z3; crypto abstraction listed in the evidence")
+claim("C05", "K", K,
+      "Kernel level: CounterpartyCommitmentSecrets slot arithmetic (place_secret for all u64, slot masks, get_min_seen_secret over a symbolic 49-slot store with a reduced index family). The SHA-256 based derive/provide consistency check is not covered by these harnesses; call-sequence rules are outside the claim.",
+      "trusted: Kani/CBMC; unwinding assertions on; cover witnesses required")
+claim("C12", "K", K,
+      "Kernel level: codec primitives (ints, U48, BigSize, CollectionLength, HighZeroBytesDroppedBigSize, bool, Option) round-trip and canonical-form rejection for every input <= 10 bytes; FixedLengthReader bounds; the real TLV macros on a probe struct (ordering, required/unknown-even/odd rules, exact lengths, truncation). Large persisted objects are outside the claim.",
+      "trusted: Kani/CBMC; Kani-only model of bitcoin-io's io::Error payload (harness/patched/bitcoin-io)")
+claim("C13", "K", K,
+      "Kernel level: key-free peer messages round-trip for arbitrary field values; decoding of bounded arbitrary inputs is total, canonical and never reads past the buffer; unknown even TLVs rejected, odd ignored. Messages with keys/signatures, onion packets and wire::read are outside the claim.",
+      "trusted: Kani/CBMC; Kani-only model of bitcoin-io's io::Error payload")
+claim("C14", "K", K,
+      "Kernel level (narrow): AttributionData layout - shift_right/shift_left inverse on the retained bytes, hold-time and HMAC slot movement - for fully symbolic 920-byte contents. Onion construction/peeling and all cryptography are outside the claim.",
+      "trusted: Kani/CBMC")
+claim("C18", "K", K,
+      "Kernel level (narrow): BOLT-11 integer <-> 5-bit group codec (mutually inverse, canonical, size function), amount x SI-prefix arithmetic never wraps, PositiveTimestamp bounds; for all u64. Bech32 checksum, signatures, tagged fields and BOLT-12 are outside the claim.",
+      "trusted: Kani/CBMC")
 
 
 def main():
